@@ -182,4 +182,26 @@ CHECKS["C07"] = {
     "level_note": SYS_NOTE + "; close racing unread data is not asserted (TCP may legally cut the tail)",
 }
 
+CHECKS["C19"] = {
+    "subs": [
+        {"pkg": "sim", "test": "TestC19Rebalance", "quick": 4000, "thorough": 200000, "shards_quick": 8, "shards_thorough": 16},
+        {"pkg": "sys", "test": "TestC19Disabled", "quick": 4, "thorough": 24, "shards_quick": 4, "shards_thorough": 8, "timeout_quick": 600},
+    ],
+    "engine": "PURE+SYS",
+    "level_text": "Property-based test of one Rebalance() step on the real upstream server with real yamux sessions and generated cluster views (thresholds placed on the balance, whole-number averages of zero, non-active nodes with connections): the number of closed sessions must respect the statement's preconditions and cap; on real clusters rebalancing with threshold 0 must never shed. Exploration only.",
+    "technique": "PBT (rapid) with an arithmetic oracle derived from the statement; session closure counted on real yamux sessions",
+    "level_note": "no lower bound on shedding is asserted (the statement gives none); balances within 1e-9 of the threshold accept either outcome",
+}
+
+CHECKS["C20"] = {
+    "subs": [
+        {"pkg": "sim", "test": "TestC20Program", "race": True, "quick": 400, "thorough": 20000, "shards_quick": 8, "shards_thorough": 16, "timeout_quick": 900, "timeout_thorough": 7200},
+        {"pkg": "sys", "test": "TestC20Churn", "race": True, "quick": 2, "thorough": 24, "shards_quick": 2, "shards_thorough": 8, "timeout_quick": 900, "timeout_thorough": 7200},
+    ],
+    "engine": "SIM+SYS (-race)",
+    "level_text": "Generated concurrent programs over one real node stack and generated churn on real clusters, both built with the race detector: the detector reports unsynchronised access from happens-before (without needing the bad interleaving), a watchdog catches deadlocks, and at quiescence registry, routing table and gossip state must agree. Exploration only; interleavings are sampled.",
+    "technique": "PBT-generated concurrent programs under the Go race detector + quiescence invariants",
+    "level_note": "absence of a race on paths the generated programs do not execute is not shown",
+}
+
 NOT_APPLICABLE = {}
